@@ -60,26 +60,70 @@ SUITES = {
         trace=dict(module="Trace_Init", cfg_in="Trace_Init.cfg.in"),
         props=["C20"],
     ),
+    "evm17": dict(
+        mc=[dict(module="MC_EVM", cfg=tiered("MC_EVM.cfg", "MC_EVM_thorough.cfg"),
+                 timeout=tiered(1500, 7200), workers=tiered(6, 8))],
+        driver="evm17",
+        # --cases Q: operand pairs per arithmetic/comparison/bitwise instruction from the boundary lattice
+        # (0 = all pairs); --other P: percentage of the memory/copy/storage/flow case families;
+        # --tiny N: byte strings of the model checker's alphabets; --random N: generated programs
+        driver_args=lambda tier: (["--cases", 60, "--other", 35, "--illformed", 1, "--tiny", 300, "--random", 150]
+                                  if tier == "quick" else
+                                  ["--cases", 0, "--other", 100, "--illformed", 1, "--tiny", 100000, "--random", 2500]),
+        trace=dict(module="Trace_EVM", cfg_in="Trace_EVM.cfg.in", workers=6, timeout=5400),
+        props=["C17", "C18"],
+    ),
+    "verif": dict(
+        mc=[dict(module="MC_VerifReg", cfg="MC_VerifReg.cfg", timeout=tiered(1800, 7200), workers=tiered(6, 14))],
+        sim=dict(module="MC_VerifReg", cfg="Sim_VerifReg.cfg", num=tiered(100, 2000), depth=22),
+        tour_cap=tiered(1500, 10 ** 9),
+        driver="verif",
+        driver_args=lambda tier: ["--random", 150 if tier == "quick" else 5000, "--len", 40],
+        trace=dict(module="Trace_VerifReg", cfg_in="Trace_VerifReg.cfg.in"),
+        props=["C09", "C10"],
+    ),
+    "sectors": dict(
+        mc=[],
+        driver="sectors",
+        driver_args=lambda tier: ["--random", 12 if tier == "quick" else 400, "--len", 120],
+        trace=dict(module="Trace_Sectors", cfg_in="Trace_Sectors.cfg.in", timeout=3600),
+        props=["C02", "C03", "C04", "C05", "C14", "C01"],
+    ),
 }
 
 # property -> suites whose traces carry formulas tagged with that property
 PROPS = {
     "C16": dict(suites=["paych"], title="Payment channel: vouchers redeem once and the payout is exact"),
+    "C01": dict(suites=["sectors", "market", "paych"], title="No FIL is created, lost or stranded: conservation and solvency"),
+    "C02": dict(suites=["sectors"], title="Power is credited exactly for proven, healthy, unexpired sectors"),
+    "C03": dict(suites=["sectors"], title="Collateral ledgers are exact: pledge, deposits and the network pledge total"),
+    "C04": dict(suites=["sectors"], title="Sector bookkeeping stays a consistent partition of the miner's sectors"),
+    "C05": dict(suites=["sectors", "market"], title="The epoch cron never fails and keeps every active miner on schedule"),
+    "C09": dict(suites=["verif"], title="DataCap is conserved and each allocation is spent exactly once"),
     "C06": dict(suites=["market"], title="Market escrow: locked funds equal outstanding deal obligations"),
     "C07": dict(suites=["market"], title="Deal payments are exact and independent of the settlement schedule"),
     "C08": dict(suites=["market"], title="Deal lifecycle: unique publication, one timely activation by the provider"),
     "C13": dict(suites=["minerctl"], title="Control of a miner changes hands only by two-sided, delayed handover"),
     "C12": dict(suites=["multisig"], title="Multisig: spending needs a quorum of current signers, once, within the lock"),
     "C20": dict(suites=["initd"], title="Actor identities are unique, stable and derived as specified"),
+    "C17": dict(suites=["evm17"], title="EVM instructions compute what the Ethereum specification says"),
 }
 
 NOT_BUILT = "check not built yet in this round (work in progress; see DESIGN.md build order)"
 NOT_APPLICABLE = {p: NOT_BUILT for p in
-                  ["C01", "C02", "C03", "C04", "C05", "C09", "C10", "C11",
-                   "C14", "C15", "C17", "C18", "C19"]}
+                  ["C10", "C11",
+                   "C14", "C15", "C18", "C19"]}
 
 _MKT = ("Bounded exhaustive TLC model checking of spec/Market.tla with the REAL protocol constants (180-day minimum duration, 30-day cron interval; time jumps only between deal boundaries and scheduled cron epochs, so the state space is small and every behaviour is replayable 1:1): every interleaving of deposits, withdrawals, batch publication with invalid entries, both activation paths, settlement, sector termination and the per-epoch cron over <= 2 deals; formulas as invariants over state + event-derived ghosts and as action properties. Conformance: a transition tour of the model, TLC simulation behaviours and guided random schedules run on the real market actor with real miner actors as providers; every recorded step validated by TLC. ")
+_SEC = ("System-level conformance: guided random schedules of USER messages only (pre-commit, prove-commit, Window PoSt with skipped sets, fault / recovery declarations, terminations, extensions, compaction, withdrawals, block rewards, fault-plan injections) plus the per-epoch cron are run on the real miner, power, reward, cron and market actors under a scaled-down policy (4 deadlines x 6 epochs, 2 KiB sectors, partition size 2), miners created through the real power actor; after every message and tick the full projected state (every partition bitfield, memo, expiration queue, claim, cron queue, balance) is validated by TLC against the Layer-P formulas of spec/SectorsP.tla written from the protocol. ")
 LEVEL_TEXT = {
+    "C01": _SEC + "C01 formulas: TotalFilConstant, LedgerDelta (every actor's balance change equals the effective transfers of the invocation tree, failed messages change nothing), MinerSolvent, MarketSolvent (Market suite), paych Solvent (Paych suite), RewardNeverFails; also under injected failures of tolerated nested sends.",
+    "C02": _SEC + "C02 formulas: PowerIsActive (claim = sum over proven, non-faulty, non-terminated sectors recomputed from partition bitfields), TotalsOK.",
+    "C03": _SEC + "C03 formulas: PledgeExact, DepositsExact, VestExact, NonNegLedgers, NetPledgeTotal (literal; known finding F1 is reported when only the exact adjusted identity holds), NetPledgeNonNeg, PledgeTotalNeverBlocks.",
+    "C04": _SEC + "C04 formulas: SetsNest, OnePartition, PartMemos, DlMemos, EarlyDls, QueueOK, AllocCovers.",
+    "C05": _SEC + "C05 formulas: CronNeverFails, NoBalanceInvariantBroken, NoPanic, CronScheduled, CronWhileFunded (known finding F2), DeadlineCurrent, QueueNotStale, NoOverdueExpiry, EarlyTermsScheduled; CronOK in the Market suite.",
+    "C09": "Bounded exhaustive TLC model checking of spec/VerifReg.tla (verifier/client grants, allocation transfers with extension requests, claim batches with repeated / foreign / mismatched / expired entries in both all-or-nothing modes, expirations, removals, term extensions, DataCap removal) + conformance: transition tour, simulation behaviours and guided random schedules on the real datacap + verifreg + multisig(root) + miner actors; every step validated by TLC. Formulas: SupplyIsSum, SupplyIsMintedMinusBurnt, RegistryHoldsAllocs, AllowanceExact, MintOnlyByGrant, AllocFate, ClaimsFromAllocs, IdsFresh.",
+    "C17": "spec/Words.tla + spec/EVM.tla are an executable TLA+ transcription of the Yellow Paper / EIP semantics of the arithmetic, comparison, bitwise, stack, memory, storage, transient-storage, call-data/code/return-data copying, hashing (uninterpreted), control-flow and RETURN/REVERT instructions (Words.tla is cross-checked against Python integers on 5 685 generated vectors). TLC model-checks the machine's own invariants and totality over every byte string up to a small length (MC_EVM). Conformance: generated programs (every instruction over the boundary lattice: all pairs for binary, sampled triples for ternary instructions; memory/copy/storage/jump case families; deliberately ill-formed programs; all tiny byte strings of the model's alphabets; generated multi-instruction programs with loops, jumps, memory growth, storage and calldata) are deployed through the real EAM and run in the real interpreter on the recording VM with a per-step observer; TLC re-executes every program in the specification and compares every recorded step (pc, opcode, stack content, memory size) and the final outcome class, return/revert data and contract storage (read from the KAMT and via GetStorageAt).",
     "C06": _MKT + "C06 formulas: LockedIsObligation, LockedLeqEscrow, TotalsMatch, WithdrawExact, EscrowOnlyOwnMoves.",
     "C07": _MKT + "C07 formulas: EscrowExplained (every party's escrow equals deposits - withdrawals +/- the ideal per-deal payment formula at every moment, whatever the settlement schedule), BurnExact, EndLegit.",
     "C08": _MKT + "C08 formulas: IdsFresh, NoTwinDeals, PendingIsLive, PublishRules, PublishFunded, ActivationRules, ActivatedOnce.",
